@@ -45,9 +45,12 @@ AddRx == /\ pc = "build" /\ Len(prog.rx) < MaxRx
             \E law \in (IF Mode = "sim" THEN Pick({MassLaw(re, k) : k \in KG} \cup HillLawsG \cup AffineLawsG) ELSE {MassLaw(re, I(2))}),
               dl \in (IF Mode = "sim" THEN Pick(DelaysG)
                       ELSE IF dre = << >> /\ dpr = << >> THEN {NoDelay} ELSE {[type |-> "fixed", p1 |-> R(3, 2), p2 |-> Zero]}),
-              nm \in (IF Mode = "sim" THEN Pick(BOOLEAN) ELSE {Len(re) % 2 = 0}) :
+              nm \in (IF Mode = "sim" THEN Pick(BOOLEAN) ELSE {Len(re) % 2 = 0}),
+              \* history: an attempt to add another reaction was REJECTED just before this one (a Hill law on a species the
+              \* model does not have); a rejected attempt leaves the program as it was - "rej" is not part of its meaning
+              rj \in (IF Mode = "sim" THEN Pick({FALSE, FALSE, TRUE}) ELSE {FALSE}) :
               prog' = [prog EXCEPT !.rx = Append(@, [re |-> re, pr |-> pr, dre |-> dre, dpr |-> dpr, law |-> law,
-                                                     delay |-> dl, named |-> nm, unset |-> FALSE])]
+                                                     delay |-> dl, named |-> nm, unset |-> FALSE, rej |-> rj])]
          /\ UNCHANGED <<x, pc>>
 
 \* one reaction may refer to a named parameter that never receives a value
@@ -56,7 +59,7 @@ AddUnsetRx == /\ pc = "build" /\ Len(prog.rx) < MaxRx /\ Len(prog.rx) >= 1
               /\ \E re \in Pick(SeqsUpTo(1)) :
                    prog' = [prog EXCEPT !.rx = Append(@, [re |-> re, pr |-> << >>, dre |-> << >>, dpr |-> << >>,
                                                           law |-> MassLaw(re, I(1)), delay |-> NoDelay,
-                                                          named |-> TRUE, unset |-> TRUE])]
+                                                          named |-> TRUE, unset |-> TRUE, rej |-> FALSE])]
               /\ UNCHANGED <<x, pc>>
 
 Finish == /\ pc = "build"
@@ -71,6 +74,11 @@ Next == Declare \/ AddRx \/ AddUnsetRx \/ Finish
 Spec == Init /\ [][Next]_vars
 
 Refinement == IndexRefinesName(prog) /\ Cancels(prog)
+\* the matrices and the rate equations do not depend on the rejected attempts of the history
+Forget(p) == [p EXCEPT !.rx = [r \in 1..Len(p.rx) |-> [p.rx[r] EXCEPT !.rej = FALSE]]]
+RejectedAttemptsLeaveNoTrace == pc = "done" =>
+    /\ \A sp \in Sp, r \in 1..Len(prog.rx) : StoichN(Forget(prog).rx[r], sp) = StoichN(prog.rx[r], sp) /\ DStoichN(Forget(prog).rx[r], sp) = DStoichN(prog.rx[r], sp)
+    /\ Deriv(Forget(prog), x) = Deriv(prog, x) /\ ModelOrder(Forget(prog)) = ModelOrder(prog)
 \* an unset parameter can never be simulated: InitOutcome is "unspecified" whenever one is referenced
 UnsetBlocks == (\E r \in 1..Len(prog.rx) : prog.rx[r].unset) <=> InitOutcome(prog) = "unspecified"
 
